@@ -31,13 +31,13 @@ CHECKS = {
 }
 
 VAL_NOTE = ('Theorems are about Model/Values.v (parameter value grammar: normalize, find_tasks, ser/deser, cache_key, '
-            'task objects and pickling, ==). Tie to /repo: Gen/SrcParams.v (does deserialize_value recurse; does '
+            'task objects and pickling, ==). Tie to /repo: Gen/SrcParams.v (does deserialize_value recurse; are marker-using dicts wrapped; does '
             '__setstate__ re-initialise) and correspondence of the real constructor / find_tasks_in_param / Serializer / '
-            '== against the model on generated parameter trees. Assumed (explicit premises, exercised on edge inputs): '
+            '== against the model on generated parameter trees (incl. dicts that spell serialised tasks / enum members / wrapped dicts). Assumed (explicit premises, exercised on edge inputs): '
             'json.dumps injective and loads(dumps)=id on these trees, sha1 fixed-length and collision-free on the pair at '
             'hand, Python scalar ==. Print Assumptions: closed under the global context.')
 CHECKS.update({
-    'C07': dict(text='Proved: the serialised form determines class, every field, value types, enum members and nested task parameters at any depth (C07_ser_injective, guard: no dict parameter uses the marker keys), hence distinct tasks get distinct keys (C07_key_injective, premises on dumps/sha1), and the key survives re-normalisation, pickling and reconstruction (C07_key_stable_*). The unguarded statement is refuted in the model (C07_unguarded_refuted) and on the implementation: known finding D9. Keys recomputed in fresh interpreters under other hash seeds, fed to LocalStorage, compared across same-named and prefix-named types.',
+    'C07': dict(text='Proved: the serialised form determines class, every field, value types, enum members and nested task parameters at any depth (C07_ser_injective, for the serialiser read from the source: a dict parameter that spells a serialised task / enum member / wrapped dict is wrapped, so dict keys are unrestricted), hence distinct tasks get distinct keys (C07_key_injective, premises on dumps/sha1), and the key survives re-normalisation, pickling and reconstruction (C07_key_stable_*). For a serialiser that never wraps dicts the statement is refuted (C07_unguarded_refuted): that was defect D9, repaired in 6f0f3a0. Keys recomputed in fresh interpreters under other hash seeds, fed to LocalStorage, compared across same-named and prefix-named types.',
                 design='6/C07', technique='Coq injectivity proof by nested induction + differential correspondence of Serializer', note=VAL_NOTE),
     'C09': dict(text='Proved: deserialising the serialised form returns the same task for every parameter tree (C09_roundtrip; mutual/nested induction), for the recursive deserialize_value read from the source; refuted for a shallow one (C09_shallow_refuted). The listing itself (Lab.cached_tasks over load_task/load_metadata, Model/Listing.v): over a storage holding what save wrote for any mix of types and cache formats, cached_tasks(types) returns exactly the stored tasks of the requested types, in storage order, each once however often a type is requested, structurally as stored, with the stored result_meta, and never raises (C09_listing_exact); entries of another cache class are never listed and an entry contributes at most one task whatever the storage holds (C09_other_format_not_listed, C09_listing_at_most_once). Tie: real storages filled by runs and salted with foreign/damaged entries, read back from disk and handed to the model with each query.',
                 design='6/C09', technique='Coq round-trip and listing-exactness proofs + differential correspondence of Serializer.deserialize_task and Lab.cached_tasks', note=VAL_NOTE),
